@@ -168,7 +168,7 @@ class pyule(ParametricSpectrum):
             self.psd = newpsd
         else:
             self.psd = psd
-        if self.scale_by_freq is True:
+        if self.scale_by_freq:
             self.scale()
         return self
 
